@@ -160,6 +160,12 @@ fn parse_inline_tag(tokens: &[Token]) -> Option<usize> {
     Some(cursor + 1)
 }
 
+/// Verification hook (see `crate::verif_hooks`): forwarder to the private [`parse_inline_tag`].
+#[cfg(kani)]
+pub(super) fn verif_parse_inline_tag(tokens: &[Token]) -> Option<usize> {
+    parse_inline_tag(tokens)
+}
+
 #[cfg(test)]
 mod tests {
     use harper_core::{Document, Punctuation, TokenKind, parsers::MarkdownOptions};
